@@ -8,7 +8,8 @@ import hirutil as H
 from core import load_table
 
 LEVEL = 'proof'
-TECHNIQUE = 'type-driven interprocedural taint analysis of hash-iteration order over typed HIR + who-may-call scan of MIR callees'
+TECHNIQUE = ('type-driven interprocedural taint analysis of hash-iteration order over typed HIR + who-may-call scan of MIR callees + backward '
+             'derivation of map keys (key injectivity through views, projections and callees) for every keyed write fed from a hash-ordered source')
 LEVEL_TEXT = ('Proof of the clause "no HashMap/HashSet iteration order, ambient input or mutable global reaches an output": every '
               'consumption point of a hash-ordered value in the three crates is enumerated from the type-checked program and must be '
               'a total-key sort, an order-insensitive sink or a reviewed row (obligations == discharged). This is the clause on which '
